@@ -137,6 +137,10 @@ func init() {
 		if f == nil {
 			return Tuple{[]Value(nil), in.nativeErr(pathErr("open", name, syscall.ENOENT))}
 		}
+		if in.fs.failures && in.choose("eio", 2) == 1 {
+			// a transient read failure (EIO, EMFILE, ...): the file is there but cannot be read now
+			return Tuple{[]Value(nil), in.nativeErr(pathErr("read", name, syscall.EIO))}
+		}
 		return Tuple{in.bytesValue(f.data), Iface{}}
 	})
 	reg("os.MkdirAll", func(fr *frame, a []Value) Value {
